@@ -311,9 +311,13 @@ fn items_json(lm: &LineMap, prefix: &str, items: &[syn::Item], out: &mut Vec<Val
                 };
                 let mut methods = vec![];
                 let mut consts = vec![];
+                let mut types = vec![];
                 for ii in &i.items {
                     if let syn::ImplItem::Const(c) = ii {
                         consts.push(json!({"name": c.ident.to_string(), "ty": lm.text(c.ty.span()), "expr": lm.text(c.expr.span()), "span": lm.span(c.span())}));
+                    }
+                    if let syn::ImplItem::Type(t) = ii {
+                        types.push(json!({"name": t.ident.to_string(), "text": lm.text(t.span())}));
                     }
                     if let syn::ImplItem::Fn(m) = ii {
                         let p = format!("{}{}::{}", prefix, name, m.sig.ident);
@@ -325,7 +329,7 @@ fn items_json(lm: &LineMap, prefix: &str, items: &[syn::Item], out: &mut Vec<Val
                     "span": lm.span(i.span()), "start_no_attrs": start_after_attrs(lm, &i.attrs, i.span()),
                     "attrs": attrs_json(lm, &i.attrs),
                     "brace": [lm.span(i.brace_token.span.open()), lm.span(i.brace_token.span.close())],
-                    "methods": methods, "consts": consts}));
+                    "methods": methods, "consts": consts, "types": types}));
             }
             syn::Item::Mod(m) => {
                 let is_test = m.attrs.iter().any(|a| lm.text(a.span()).contains("cfg(test)"));
